@@ -67,6 +67,8 @@ pub struct Flags {
     pub first_io_pop: Option<String>,
     /// outputs of values >= 2^32 that were passed over (only with `continue_unspecified`)
     pub unspecified_outputs: usize,
+    /// total number of pops and pushes (work estimate: a real run costs roughly this many stack operations)
+    pub stack_ops: usize,
 }
 
 #[derive(Clone, Debug)]
@@ -132,6 +134,7 @@ impl Model {
     }
 
     fn push(&mut self, idx: usize, v: RefRat) -> Result<(), Stop> {
+        self.flags.stack_ops += 1;
         self.note(&v);
         if v.size9() > self.size_cap9 {
             return Err(Stop::TooBig);
@@ -180,6 +183,7 @@ impl Model {
     }
 
     fn pop(&mut self, idx: usize) -> Result<RefRat, Stop> {
+        self.flags.stack_ops += 1;
         if idx <= 2 && self.flags.first_io_pop.is_none() {
             self.flags.first_io_pop = Some(self.ctx.clone());
         }
